@@ -8,6 +8,9 @@ mkdir -p coq/Gen evidence replay
 sh tools/mkproject.sh
 cd coq
 coq_makefile -f _CoqProject -o Makefile > /dev/null
-timeout 7000 make -j16 > /var/tmp/verif-setup-make.log 2>&1 || { tail -40 /var/tmp/verif-setup-make.log; exit 1; }
+# -k: a file that does not compile only affects the checks whose cone contains it (each check rebuilds and
+# reports its own cone); the shared base must build
+timeout 7000 make -j16 -k > /var/tmp/verif-setup-make.log 2>&1 || { echo "setup: some Coq files did not build:"; grep -B2 -A6 "^Error" /var/tmp/verif-setup-make.log | head -60; }
+test -f Base/Prelude.vo || { echo "setup: base did not build"; exit 1; }
 sh extract/build.sh
 echo "setup ok"
